@@ -216,3 +216,19 @@ M("c18.report-from-previous-buffers", "C18", MOD, "                self.captured
   "                error2 = self.captured.make_report()\n                self.captured = runner.capture_controller.captured")
 M("c18.ki-in-hook-not-restored", "C18", RUN, "                    self.stop_capture()\n                    self.teardown_capture()\n                    failed_count += 1", "                    failed_count += 1")
 M("c18.stderr-capture-follows-stdout-switch", "C18", CAP, "        if self.config.stderr_capture:\n            # -- REPLACE ONLY: In non-capturing mode.\n            if not self.old_stderr:", "        if self.config.stdout_capture:\n            # -- REPLACE ONLY: In non-capturing mode.\n            if not self.old_stderr:")
+
+# ---- C04 -------------------------------------------------------------------
+PAR = "behave/parser.py"
+M("c04.last-step-type-not-updated", "C04", PAR, "                else:\n                    self.last_step_type = step_type\n", "                else:\n                    if step_type != \"when\":\n                        self.last_step_type = step_type\n")
+M("c04.table-line-off-by-one", "C04", PAR, "            self.table = model.Table(headings, line=self.line)", "            self.table = model.Table(headings, line=self.line + 1)")
+M("c04.docstring-leading-from-stripped", "C04", PAR, "            self.multiline_leading = line.index(stripped[0])", "            self.multiline_leading = 0")
+M("c04.examples-tags-not-reset", "C04", PAR, "        self.statement.examples.append(self.examples)\n\n        # -- RESET STATE:\n        self.tags = []", "        self.statement.examples.append(self.examples)\n")
+M("c04.rule-description-to-feature", "C04", PAR, "        self.rule.description.append(line)", "        self.feature.description.append(line)")
+M("c04.escaped-pipe-not-unescaped", "C04", PAR, 'cells = [cell.replace("\\\\|", "|").strip()', 'cells = [cell.strip()')
+M("c04.row-line-from-table", "C04", PAR, "            self.table.add_row(cells, self.line)", "            self.table.add_row(cells)")
+M("c04.tag-line-of-statement", "C04", PAR, "                tags.append(model.Tag(word[1:], self.line))", "                tags.append(model.Tag(word[1:], self.line + 1))")
+M("c04.star-never-inherits", "C04", PAR, '                if kw.startswith("*") and self.last_step_type:', '                if kw.startswith("*") and False:')
+M("c04.keyword-first-match", "C04", PAR, "                if 2 * len(kw) + int(line.startswith(kw)) != best_match_size:", "                if False:")
+M("c04.background-and-does-not-inherit", "C04", PAR, "            this_background_steps = (this_background.steps or\n                                     this_background.inherited_steps)", "            this_background_steps = this_background.steps")
+M("c04.docstring-lines-lstripped", "C04", PAR, "        text_line = line[self.multiline_leading:].rstrip()", "        text_line = line[self.multiline_leading:].strip()")
+M("c04.language-header-ignored-after-blank", "C04", PAR, "            if line.lstrip().lower().startswith(\"language:\"):", "            if self.line == 1 and line.lstrip().lower().startswith(\"language:\"):")
